@@ -28,6 +28,10 @@ def malformed(cases_q, cases_t):
 PACKED = {"name": "S-packed:decision", Q: ["packed"], T: ["packed"], "seeds_t": 1}
 
 
+def bulk(cq, ct):
+    return {"name": "S-packed:bulk-vs-single", Q: ["bulk", "--cases", str(cq)], T: ["bulk", "--cases", str(ct), "--size", "40"], "seeds_t": 4}
+
+
 def files(cq, ct):
     return {"name": "S-container:files", Q: ["files", "--cases", str(cq)], T: ["files", "--cases", str(ct), "--size", "30"], "seeds_t": 3}
 
@@ -48,6 +52,12 @@ PROPS = {
                    "tables_error_kinds", "tables_enum_tag_rule", "tables_schema_tags", "tables_limits"],
         "suites": [codec(8, 40), files(2, 8)],
         "oracle": ["C02"],
+    },
+    "C04": {
+        "module": "Sfv.Props.C04",
+        "tables": ["tables_prim_packed", "tables_prim_widths"],
+        "suites": [PACKED, bulk(4, 20), codec(6, 30)],
+        "oracle": ["C04"],
     },
     "C06": {
         "module": "Sfv.Props.C06",
